@@ -29,12 +29,14 @@ func (check) Cases(tier string) int {
 }
 
 func (check) Rule() string {
-	return "pairs (A, B = mutation of A) of trees whose 3 keys repeat at every depth, merged with PathSep(\".\"), one of 5 global policies and a pool of one to three Field{Merge,Replace,Append,Prepend}Values options; field paths: concrete paths of 1-3 names/indices (present or absent, addressing objects, lists, list positions, primitives), **.name, *.name over a top-level list, name.*.name; combinations: concrete with concrete, concrete with **.name, **.name with **.name. List-bearing subtrees are planted at the option paths and at decoys (the same names in the same order at another depth). Call 1 uses the whole pool; in half of the cases one or two further calls reuse the SAME Option values in another selection/order, under another global policy or with swapped operands. Every result is compared with the merge model run with policy(q) = policy of the option whose subtree is the innermost one containing q, else the global one; reused Option values are compared with a twin call made with newly created ones; plus two model-independent laws (outside the named subtrees - for **.name: outside everything called name - nothing changes; a path matching nothing changes nothing). Non-trivial = the options change the model result w.r.t. the plain global merge; distinct = distinct (global, options, A, B)."
+	return "pairs (A, B = mutation of A) of trees whose 3 keys repeat at every depth, merged with PathSep(\".\"), one of 5 global policies and a pool of one to three Field{Merge,Replace,Append,Prepend}Values options; field paths: concrete paths of 1-3 names/indices (present or absent, addressing objects, lists, list positions, primitives), **.name, *.name over a top-level list, name.*.name; combinations: concrete with concrete, concrete with **.name, **.name with **.name. List-bearing subtrees are planted at the option paths and at decoys (the same names in the same order at another depth). Call 1 uses the whole pool; in half of the cases one or two further calls reuse the SAME Option values in another selection/order, under another global policy or with swapped operands. Every result is compared with the merge model run with policy(q) = policy of the option whose subtree is the innermost one containing q, else the global one; reused Option values are compared with a twin call made with newly created ones; a third of the cases repeats every call with a destination in which one or two object/list valued settings on, above or below the option paths (also inside one another, also through a chain) are replaced by references to top-level settings, VarExp on: same result as for the literal destination, referenced settings unchanged; plus two model-independent laws (outside the named subtrees - for **.name: outside everything called name - nothing changes; a path matching nothing changes nothing). Non-trivial = the options change the model result w.r.t. the plain global merge; distinct = distinct (global, options, A, B)."
 }
 
 func (check) Assumptions() []string {
 	return []string{
-		"reading fixed in DESIGN.md: the policy in force at a node decides how that node's dictionary and list parts combine (so a global ReplaceValues above the path leaves nothing for the field option to merge with)",
+		"nested policies, dictionaries: the subtree of an option is merged as if its policy were the global one also where it lies below a node merged under replace (global ReplaceValues or an enclosing FieldReplaceValues): the replace node takes B's named settings, but a child at which an option with another policy starts is merged with A's old child under that policy, and a child on the way to such a subtree is B's child except for what is found further down that way (walk.go); the as-built reading (old named settings dropped before any field is looked at) is the predicate of the finding field-policy-inside-enclosing-replace-has-no-effect",
+		"nested policies, lists: elements meet only where the list is merged by index; below a replaced, appended or prepended list no option has two values to merge (positions shift), nothing is claimed there",
+		"destinations holding references: only with a global policy other than ReplaceValues (it drops the referenced top-level settings, what is left may refer to nothing); sources holding references are C10's matter; strings containing '$' are not generated in those cases",
 		"wildcard shapes other than **.name, *.name (top-level list) and name.*.name are not generated: their meaning is not settled by statement or documentation",
 		"combinations are generated only where the statement settles them: two options never name the same path; a **.name option is combined with a concrete path only if name does not occur in that path (so the ** subtree can lie inside the concrete one - innermost decides - but never encloses its start); single-level wildcards are only given alone",
 		"PathSep(\".\") precedes the field options (documented usage; the options hard-wire the \".*\" suffix, other separators are not generated)",
